@@ -136,21 +136,24 @@ BrowserBacked.vos BrowserBacked.vok BrowserBacked.required_vos: BrowserBacked.v 
 BrowserSrv.vo BrowserSrv.glob BrowserSrv.v.beautified BrowserSrv.required_vo: BrowserSrv.v Base.vo Fields.vo SrcFacts.vo Msg.vo SrcDecisions.vo Cache.vo CacheSpec.vo CacheProofs.vo Sim.vo Prober.vo Resolver.vo Browser.vo BrowserProofs.vo BrowserInv.vo
 BrowserSrv.vio: BrowserSrv.v Base.vio Fields.vio SrcFacts.vio Msg.vio SrcDecisions.vio Cache.vio CacheSpec.vio CacheProofs.vio Sim.vio Prober.vio Resolver.vio Browser.vio BrowserProofs.vio BrowserInv.vio
 BrowserSrv.vos BrowserSrv.vok BrowserSrv.required_vos: BrowserSrv.v Base.vos Fields.vos SrcFacts.vos Msg.vos SrcDecisions.vos Cache.vos CacheSpec.vos CacheProofs.vos Sim.vos Prober.vos Resolver.vos Browser.vos BrowserProofs.vos BrowserInv.vos
-ProviderListener.vo ProviderListener.glob ProviderListener.v.beautified ProviderListener.required_vo: ProviderListener.v Base.vo Fields.vo SrcFacts.vo Msg.vo SrcDecisions.vo Cache.vo CacheSpec.vo CacheProofs.vo Sim.vo Prober.vo Hostname.vo HostnameInv.vo Provider.vo ProviderProofs.vo
-ProviderListener.vio: ProviderListener.v Base.vio Fields.vio SrcFacts.vio Msg.vio SrcDecisions.vio Cache.vio CacheSpec.vio CacheProofs.vio Sim.vio Prober.vio Hostname.vio HostnameInv.vio Provider.vio ProviderProofs.vio
-ProviderListener.vos ProviderListener.vok ProviderListener.required_vos: ProviderListener.v Base.vos Fields.vos SrcFacts.vos Msg.vos SrcDecisions.vos Cache.vos CacheSpec.vos CacheProofs.vos Sim.vos Prober.vos Hostname.vos HostnameInv.vos Provider.vos ProviderProofs.vos
+ProviderListener.vo ProviderListener.glob ProviderListener.v.beautified ProviderListener.required_vo: ProviderListener.v Base.vo Fields.vo SrcFacts.vo Msg.vo SrcDecisions.vo Cache.vo CacheSpec.vo CacheProofs.vo Sim.vo Prober.vo Hostname.vo HostnameProofs.vo HostnameInv.vo Provider.vo ProviderProofs.vo
+ProviderListener.vio: ProviderListener.v Base.vio Fields.vio SrcFacts.vio Msg.vio SrcDecisions.vio Cache.vio CacheSpec.vio CacheProofs.vio Sim.vio Prober.vio Hostname.vio HostnameProofs.vio HostnameInv.vio Provider.vio ProviderProofs.vio
+ProviderListener.vos ProviderListener.vok ProviderListener.required_vos: ProviderListener.v Base.vos Fields.vos SrcFacts.vos Msg.vos SrcDecisions.vos Cache.vos CacheSpec.vos CacheProofs.vos Sim.vos Prober.vos Hostname.vos HostnameProofs.vos HostnameInv.vos Provider.vos ProviderProofs.vos
 ProviderGoodbye.vo ProviderGoodbye.glob ProviderGoodbye.v.beautified ProviderGoodbye.required_vo: ProviderGoodbye.v Base.vo Fields.vo SrcFacts.vo Msg.vo SrcDecisions.vo Cache.vo CacheSpec.vo CacheProofs.vo Sim.vo Prober.vo Hostname.vo HostnameInv.vo Provider.vo ProviderProofs.vo ProviderListener.vo
 ProviderGoodbye.vio: ProviderGoodbye.v Base.vio Fields.vio SrcFacts.vio Msg.vio SrcDecisions.vio Cache.vio CacheSpec.vio CacheProofs.vio Sim.vio Prober.vio Hostname.vio HostnameInv.vio Provider.vio ProviderProofs.vio ProviderListener.vio
 ProviderGoodbye.vos ProviderGoodbye.vok ProviderGoodbye.required_vos: ProviderGoodbye.v Base.vos Fields.vos SrcFacts.vos Msg.vos SrcDecisions.vos Cache.vos CacheSpec.vos CacheProofs.vos Sim.vos Prober.vos Hostname.vos HostnameInv.vos Provider.vos ProviderProofs.vos ProviderListener.vos
 ProviderReply.vo ProviderReply.glob ProviderReply.v.beautified ProviderReply.required_vo: ProviderReply.v Base.vo Fields.vo SrcFacts.vo Msg.vo SrcDecisions.vo Cache.vo CacheSpec.vo Sim.vo Prober.vo Hostname.vo Provider.vo ProviderSpec.vo ProviderProofs.vo ProviderListener.vo
 ProviderReply.vio: ProviderReply.v Base.vio Fields.vio SrcFacts.vio Msg.vio SrcDecisions.vio Cache.vio CacheSpec.vio Sim.vio Prober.vio Hostname.vio Provider.vio ProviderSpec.vio ProviderProofs.vio ProviderListener.vio
 ProviderReply.vos ProviderReply.vok ProviderReply.required_vos: ProviderReply.v Base.vos Fields.vos SrcFacts.vos Msg.vos SrcDecisions.vos Cache.vos CacheSpec.vos Sim.vos Prober.vos Hostname.vos Provider.vos ProviderSpec.vos ProviderProofs.vos ProviderListener.vos
+ProviderNames.vo ProviderNames.glob ProviderNames.v.beautified ProviderNames.required_vo: ProviderNames.v Base.vo Fields.vo SrcFacts.vo Msg.vo SrcDecisions.vo Cache.vo CacheSpec.vo CacheProofs.vo Sim.vo Prober.vo Hostname.vo HostnameInv.vo Provider.vo ProviderSpec.vo ProviderProofs.vo ProviderListener.vo ProviderGoodbye.vo ProviderReply.vo
+ProviderNames.vio: ProviderNames.v Base.vio Fields.vio SrcFacts.vio Msg.vio SrcDecisions.vio Cache.vio CacheSpec.vio CacheProofs.vio Sim.vio Prober.vio Hostname.vio HostnameInv.vio Provider.vio ProviderSpec.vio ProviderProofs.vio ProviderListener.vio ProviderGoodbye.vio ProviderReply.vio
+ProviderNames.vos ProviderNames.vok ProviderNames.required_vos: ProviderNames.v Base.vos Fields.vos SrcFacts.vos Msg.vos SrcDecisions.vos Cache.vos CacheSpec.vos CacheProofs.vos Sim.vos Prober.vos Hostname.vos HostnameInv.vos Provider.vos ProviderSpec.vos ProviderProofs.vos ProviderListener.vos ProviderGoodbye.vos ProviderReply.vos
 ProviderConverge.vo ProviderConverge.glob ProviderConverge.v.beautified ProviderConverge.required_vo: ProviderConverge.v Base.vo Fields.vo SrcFacts.vo Msg.vo SrcDecisions.vo Cache.vo CacheSpec.vo CacheProofs.vo Sim.vo Prober.vo Hostname.vo HostnameInv.vo Provider.vo ProviderProofs.vo ProviderListener.vo
 ProviderConverge.vio: ProviderConverge.v Base.vio Fields.vio SrcFacts.vio Msg.vio SrcDecisions.vio Cache.vio CacheSpec.vio CacheProofs.vio Sim.vio Prober.vio Hostname.vio HostnameInv.vio Provider.vio ProviderProofs.vio ProviderListener.vio
 ProviderConverge.vos ProviderConverge.vok ProviderConverge.required_vos: ProviderConverge.v Base.vos Fields.vos SrcFacts.vos Msg.vos SrcDecisions.vos Cache.vos CacheSpec.vos CacheProofs.vos Sim.vos Prober.vos Hostname.vos HostnameInv.vos Provider.vos ProviderProofs.vos ProviderListener.vos
-ProviderTarget.vo ProviderTarget.glob ProviderTarget.v.beautified ProviderTarget.required_vo: ProviderTarget.v Base.vo Fields.vo SrcFacts.vo Msg.vo SrcDecisions.vo Cache.vo CacheSpec.vo CacheProofs.vo Sim.vo SimProofs.vo Prober.vo Hostname.vo HostnameInv.vo Provider.vo ProviderProofs.vo ProviderListener.vo ProviderConverge.vo
-ProviderTarget.vio: ProviderTarget.v Base.vio Fields.vio SrcFacts.vio Msg.vio SrcDecisions.vio Cache.vio CacheSpec.vio CacheProofs.vio Sim.vio SimProofs.vio Prober.vio Hostname.vio HostnameInv.vio Provider.vio ProviderProofs.vio ProviderListener.vio ProviderConverge.vio
-ProviderTarget.vos ProviderTarget.vok ProviderTarget.required_vos: ProviderTarget.v Base.vos Fields.vos SrcFacts.vos Msg.vos SrcDecisions.vos Cache.vos CacheSpec.vos CacheProofs.vos Sim.vos SimProofs.vos Prober.vos Hostname.vos HostnameInv.vos Provider.vos ProviderProofs.vos ProviderListener.vos ProviderConverge.vos
+ProviderTarget.vo ProviderTarget.glob ProviderTarget.v.beautified ProviderTarget.required_vo: ProviderTarget.v Base.vo Fields.vo SrcFacts.vo Msg.vo SrcDecisions.vo Cache.vo CacheSpec.vo CacheProofs.vo Sim.vo SimProofs.vo Prober.vo Hostname.vo HostnameProofs.vo HostnameInv.vo Provider.vo ProviderProofs.vo ProviderListener.vo ProviderConverge.vo
+ProviderTarget.vio: ProviderTarget.v Base.vio Fields.vio SrcFacts.vio Msg.vio SrcDecisions.vio Cache.vio CacheSpec.vio CacheProofs.vio Sim.vio SimProofs.vio Prober.vio Hostname.vio HostnameProofs.vio HostnameInv.vio Provider.vio ProviderProofs.vio ProviderListener.vio ProviderConverge.vio
+ProviderTarget.vos ProviderTarget.vok ProviderTarget.required_vos: ProviderTarget.v Base.vos Fields.vos SrcFacts.vos Msg.vos SrcDecisions.vos Cache.vos CacheSpec.vos CacheProofs.vos Sim.vos SimProofs.vos Prober.vos Hostname.vos HostnameProofs.vos HostnameInv.vos Provider.vos ProviderProofs.vos ProviderListener.vos ProviderConverge.vos
 Properties_C05.vo Properties_C05.glob Properties_C05.v.beautified Properties_C05.required_vo: Properties_C05.v Base.vo Fields.vo SrcFacts.vo Msg.vo SrcDecisions.vo Cache.vo CacheSpec.vo CacheProofs.vo CacheAccept.vo CacheLate.vo
 Properties_C05.vio: Properties_C05.v Base.vio Fields.vio SrcFacts.vio Msg.vio SrcDecisions.vio Cache.vio CacheSpec.vio CacheProofs.vio CacheAccept.vio CacheLate.vio
 Properties_C05.vos Properties_C05.vok Properties_C05.required_vos: Properties_C05.v Base.vos Fields.vos SrcFacts.vos Msg.vos SrcDecisions.vos Cache.vos CacheSpec.vos CacheProofs.vos CacheAccept.vos CacheLate.vos
@@ -193,9 +196,9 @@ Properties_C12.vos Properties_C12.vok Properties_C12.required_vos: Properties_C1
 Properties_C11.vo Properties_C11.glob Properties_C11.v.beautified Properties_C11.required_vo: Properties_C11.v Base.vo Fields.vo SrcFacts.vo Msg.vo SrcDecisions.vo Sim.vo Prober.vo Hostname.vo Provider.vo ProviderSpec.vo ProviderProofs.vo
 Properties_C11.vio: Properties_C11.v Base.vio Fields.vio SrcFacts.vio Msg.vio SrcDecisions.vio Sim.vio Prober.vio Hostname.vio Provider.vio ProviderSpec.vio ProviderProofs.vio
 Properties_C11.vos Properties_C11.vok Properties_C11.required_vos: Properties_C11.v Base.vos Fields.vos SrcFacts.vos Msg.vos SrcDecisions.vos Sim.vos Prober.vos Hostname.vos Provider.vos ProviderSpec.vos ProviderProofs.vos
-Properties_C10.vo Properties_C10.glob Properties_C10.v.beautified Properties_C10.required_vo: Properties_C10.v Base.vo Fields.vo SrcFacts.vo Msg.vo SrcDecisions.vo Cache.vo CacheSpec.vo Sim.vo Prober.vo Hostname.vo Provider.vo ProviderSpec.vo ProviderProofs.vo ProviderListener.vo ProviderConverge.vo ProviderGoodbye.vo
-Properties_C10.vio: Properties_C10.v Base.vio Fields.vio SrcFacts.vio Msg.vio SrcDecisions.vio Cache.vio CacheSpec.vio Sim.vio Prober.vio Hostname.vio Provider.vio ProviderSpec.vio ProviderProofs.vio ProviderListener.vio ProviderConverge.vio ProviderGoodbye.vio
-Properties_C10.vos Properties_C10.vok Properties_C10.required_vos: Properties_C10.v Base.vos Fields.vos SrcFacts.vos Msg.vos SrcDecisions.vos Cache.vos CacheSpec.vos Sim.vos Prober.vos Hostname.vos Provider.vos ProviderSpec.vos ProviderProofs.vos ProviderListener.vos ProviderConverge.vos ProviderGoodbye.vos
+Properties_C10.vo Properties_C10.glob Properties_C10.v.beautified Properties_C10.required_vo: Properties_C10.v Base.vo Fields.vo SrcFacts.vo Msg.vo SrcDecisions.vo Cache.vo CacheSpec.vo Sim.vo Prober.vo Hostname.vo Provider.vo ProviderSpec.vo ProviderProofs.vo ProviderListener.vo ProviderConverge.vo ProviderGoodbye.vo ProviderReply.vo ProviderNames.vo
+Properties_C10.vio: Properties_C10.v Base.vio Fields.vio SrcFacts.vio Msg.vio SrcDecisions.vio Cache.vio CacheSpec.vio Sim.vio Prober.vio Hostname.vio Provider.vio ProviderSpec.vio ProviderProofs.vio ProviderListener.vio ProviderConverge.vio ProviderGoodbye.vio ProviderReply.vio ProviderNames.vio
+Properties_C10.vos Properties_C10.vok Properties_C10.required_vos: Properties_C10.v Base.vos Fields.vos SrcFacts.vos Msg.vos SrcDecisions.vos Cache.vos CacheSpec.vos Sim.vos Prober.vos Hostname.vos Provider.vos ProviderSpec.vos ProviderProofs.vos ProviderListener.vos ProviderConverge.vos ProviderGoodbye.vos ProviderReply.vos ProviderNames.vos
 Properties_C16.vo Properties_C16.glob Properties_C16.v.beautified Properties_C16.required_vo: Properties_C16.v Base.vo Fields.vo SrcFacts.vo Msg.vo SrcDecisions.vo Cache.vo Sim.vo SimProofs.vo Prober.vo Resolver.vo ResolverProofs.vo ResolverInv.vo CacheSpec.vo CacheProofs.vo ResolverAccept.vo ResolverFuel.vo
 Properties_C16.vio: Properties_C16.v Base.vio Fields.vio SrcFacts.vio Msg.vio SrcDecisions.vio Cache.vio Sim.vio SimProofs.vio Prober.vio Resolver.vio ResolverProofs.vio ResolverInv.vio CacheSpec.vio CacheProofs.vio ResolverAccept.vio ResolverFuel.vio
 Properties_C16.vos Properties_C16.vok Properties_C16.required_vos: Properties_C16.v Base.vos Fields.vos SrcFacts.vos Msg.vos SrcDecisions.vos Cache.vos Sim.vos SimProofs.vos Prober.vos Resolver.vos ResolverProofs.vos ResolverInv.vos CacheSpec.vos CacheProofs.vos ResolverAccept.vos ResolverFuel.vos
